@@ -217,6 +217,10 @@ func (h *histState) oraclePhase() {
 			names := sortedKeys(rec.canon.Results)
 			if len(names) > 0 {
 				n := names[int(strHash64(fmt.Sprint(h.p.Seed, ri))%uint64(len(names)))]
+				if _, inRef := R.Results[n]; !inRef {
+					// a lint the reference process does not have (a probe registered in the middle of this history)
+					continue
+				}
 				one := ref(kind, o.spec.DER, cfgText, nil, n)
 				if one.Results[n] != R.Results[n] && R.Panics[n] == "" {
 					h.violate(Violation{Property: "C05", Class: "history_dep", Lint: n, Op: rec.op,
